@@ -14,15 +14,16 @@
 (*                arguments (Read) gives back exactly the clauses that were written, in every   *)
 (*                order: no clause absorbs the words of the clause that follows it.             *)
 (* Where the documented grammar itself cannot tell two readings apart (a source without a       *)
-(* `fields in` part directly followed by an `in` clause; an optional trailing name directly     *)
-(* followed by a connective that is not a reserved word, which only framer has: `first`) the    *)
-(* argument words below avoid the ambiguity; this is the stated side condition of the check.    *)
-(* Relations with the optional name left out (`of actor`, `of frame`, `of framer`) and `of me`   *)
-(* are among the wordings of every clause that takes an indirect address in do, frame and aux,  *)
-(* whose connectives are all reserved words: there the documented reading is unambiguous.       *)
+(* `fields in` part directly followed by an `in` clause: `server s for p in front` is, by the    *)
+(* docstring's own `[(value, fields) in] indirect`, also the source "field p in share front";   *)
+(* no reader can tell the two apart) the argument words below avoid the ambiguity; this is the  *)
+(* stated side condition of the check.  An optional name that is left out is NOT such a case:   *)
+(* the words that end it are the reserved words and the connectives of the verb's own clauses   *)
+(* (Stops), so relations with the name left out (`of actor`, `of frame`, `of framer`) and       *)
+(* `of me` are among the wordings of every clause that takes an indirect address.               *)
 (* The harness prints every terminal state as a command inside a minimal script, builds it with *)
 (* the real Builder and compares the projected structure with rec (vf/families/clauses.py).     *)
-EXTENDS Integers, Sequences, FiniteSets, TLC, Json
+EXTENDS Integers, Sequences, FiniteSets, FiniteSetsExt, TLC, Json
 
 CONSTANTS Verbs,       \* the verbs whose clause sets are explored
           MaxTake,     \* at most this many clauses in one command
@@ -54,7 +55,8 @@ Table ==
       at    |-> C("at", "fixed", 1, <<V(<<"0.5">>)>>),
       in    |-> C("in", "fixed", 1, <<V(<<"front">>), Bad(<<"nowhere">>)>>),
       first |-> C("first", "fixed", 1, <<V(<<"fb">>)>>),
-      via   |-> C("via", "indirect", 0, <<V(<<".nd.ft">>), V(<<"nd.rel", "of", "framer", "ft">>)>>)],
+      via   |-> C("via", "indirect", 0, <<V(<<".nd.ft">>), V(<<"nd.rel", "of", "framer", "ft">>), V(<<"nd.rel", "of", "framer">>),
+                                          V(<<"nd.rel", "of", "frame">>)>>)],
    frame |->
      [in    |-> C("in", "fixed", 1, <<V(<<"fa">>)>>),
       via   |-> C("via", "indirect", 0, <<V(<<".nd.fb">>), V(<<"nd.rel", "of", "me">>), V(<<"nd.rel", "of", "frame">>),
@@ -176,6 +178,17 @@ Close == /\ rest = {} /\ out = ""
 TakeAny == \E c \in Ids : out = "" /\ Take(c)
 Next == TakeAny \/ Close
 Spec == Init /\ [][Next]_vars
+
+\* number of finished commands the exploration must print (counted from the table, independently of the search):
+\* per verb and clause set: wordings x endings x orders (a `last` clause has its place fixed)
+RECURSIVE Fact(_)
+Fact(k) == IF k <= 1 THEN 1 ELSE k * Fact(k - 1)
+Sum(S, f(_)) == FoldSet(LAMBDA x, acc : acc + f(x), 0, S)
+WordingsOf(v, S) == 1 + Sum(S, LAMBDA c : Len(Table[v][c].vars) - 1)
+OrdersOf(v, S) == Fact(Cardinality({c \in S : ~Table[v][c].last}))
+ExpectedCommands == Sum(Verbs, LAMBDA v : Sum({S \in SUBSET (DOMAIN Table[v]) : Cardinality(S) <= MaxTake},
+                                               LAMBDA S : WordingsOf(v, S) * Cardinality(TailsOf(v)) * OrdersOf(v, S)))
+ASSUME Emit => PrintT(<<"EXPECTED", ExpectedCommands>>)
 
 \* ------------------------------------------------------------------ the documented reading
 \* index just after the words of a list-shaped argument starting at i
